@@ -308,8 +308,9 @@ def _segmented_concrete():
     r = max(min(r0, 10.0), 0.05)
     Real("px"), Real("py"), Real("lx0"), Real("ly0"), Real("lx1"), Real("ly1")
     if max(Real("bounds_w"), Real("bounds_h")) <= r0:
-        r = 12.0  # the model's geometry fits a resolution-sized box: so does this one (10 x 10), its diagonal line does not
-    poly = sg.Polygon([(0, 0), (10, 0), (10, 10), (0, 10), (0, 0)], [[(2, 2), (8, 2), (8, 8), (2, 8), (2, 2)]])
+        r = 10.5  # the model's geometry fits a resolution-sized box: so does this one (10 x 10); its diagonal line and the diagonal edge of its hole do not
+    # the hole's longest edge (11.3) is its closing one, longer than every resolution replayed
+    poly = sg.Polygon([(0, 0), (10, 0), (10, 10), (0, 10), (0, 0)], [[(9, 9), (9, 1), (1, 1), (9, 9)]])
     coll = sg.GeometryCollection([sg.Point(1, 1), sg.LineString([(0, 0), (10, 10)]), sg.MultiPolygon([poly])])
     out = Geometry(coll, None).segmented(r).geom
 
